@@ -172,6 +172,10 @@ def global_handoff(ctx):
         fid = S + "::" + fn
         ctx.order(fid, Call(MQ_MPSC + "push", on=S + ".global_queues"), Call(r"may::io::sys::select::Selector::wakeup"),
                   "push-then-wakeup", "a coroutine handed to another worker is queued before that worker is signalled")
+        # (seed C01-9) ... and it is signalled on every path: a wakeup decided by a test made BEFORE the push (`was the queue empty?`) is lost when
+        # the worker drains the queue between the test and the push and goes to sleep
+        ctx.must_follow(fid, Call(MQ_MPSC + "push", on=S + ".global_queues"), Call(r"may::io::sys::select::Selector::wakeup"), "push-always-wakes",
+                        "every coroutine pushed to a worker's global queue is followed by a wakeup of that worker", rule="R-PAIR")
         f = ctx.prog.fn(fid)
         if f is None: continue
         # same target index for the queue and the wakeup
@@ -2587,7 +2591,11 @@ def worker_run_budget_rules(ctx, rule="R-EXIT"):
         if c[0] == "bin" and c[1] == "Add": return _sv(c[3])[0] == "const" and _sv(c[3])[2] not in (None, 0, "0")
         if c[0] == "field" and c[2] == "(tuple)": return advancing(c[1])
         if c[0] == "bin" and c[1] == "AddWithOverflow": return _sv(c[3])[0] == "const" and _sv(c[3])[2] not in (None, 0, "0")
-        if c[0] == "phi": return any(advancing(z) for z in c[2] if _sv(z)[0] != "const")
+        if c[0] == "phi":
+            # one constant alternative is the initialisation; a second one is a reset inside the loop (seed C01-10: the counter shared with the
+            # periodic global poll is set back to 0 there and never reaches the budget)
+            if sum(1 for z in c[2] if _sv(z)[0] == "const") > 1: return False
+            return any(advancing(z) for z in c[2] if _sv(z)[0] != "const")
         return False
     def budget(a):
         if a.kind != "cmp": return False
@@ -2773,3 +2781,52 @@ def user_body_sites(ctx, f):
                 if c is not None and any(c.is_term(q) and c.node(q)["t"] == "call" and callee(c.node(q))[1] is None and re.fullmatch(r"std::ops::(FnOnce::call_once|FnMut::call_mut|Fn::call)", callee(c.node(q))[0] or "") for q in c.points()):
                     out.append((pt, True))
     return out
+
+
+# ------------------------------------------------------------------------------------------------
+# thread-context io: request, then wait for the proxy's done flag (F35; mutation sweep 5)
+
+def thread_io_rules(ctx, rule="R-EXIT"):
+    YW = "may::yield_now::yield_with_io"
+    f = ctx.fn(rule, YW, "thread-io/request-then-wait")
+    if f is None: return
+    an = ctx.an
+    is_co = lambda a: a.kind == "truth" and a.truth is True and root_of(simplify(a.origin))[0] == "arg"
+    not_co = lambda a: a.kind == "truth" and a.truth is False and root_of(simplify(a.origin))[0] == "arg"
+    # `likely(is_coroutine)`: the test is on the result of the hint call
+    is_co2 = lambda a: is_co(a) or (a.kind == "call" and a.truth is True and (a.name or "").endswith("likely"))
+    not_co2 = lambda a: not_co(a) or (a.kind == "call" and a.truth is False and (a.name or "").endswith("likely"))
+    ctx.must_follow(YW, None, Call(r"may::yield_now::yield_with|generator::(\w+::)*co_yield_with"), "thread-io/coroutine-suspends", "in coroutine context yield_with_io suspends the coroutine on the io source",
+                    rule="R-FWD", edge=is_co2, edge_label="edge `is_coroutine` is true")
+    SEND = Call(r"std::sync::mpsc::Sender::send|may::sync::mpsc::Sender::send")
+    WAIT = Call(r"may::io::thread::wait_proxy_co|std::thread::park")
+    ctx.must_follow(YW, None, SEND, "thread-io/request-sent", "in thread context the request goes to the thread's proxy coroutine", rule="R-FWD", edge=not_co2, edge_label="edge `is_coroutine` is false")
+    ctx.must_follow(YW, None, WAIT, "thread-io/waits-for-proxy", "... and the thread waits until the proxy is done with it (the EventSource lives on this frame)", rule="R-FWD", edge=not_co2, edge_label="edge `is_coroutine` is false")
+    ctx.order(YW, SEND, WAIT, "thread-io/request-then-wait", "the request is sent before the thread waits", rule="R-ORDER")
+    # the wait loop: leaves only on `done.swap(false) == true`
+    for k, g in sorted(ctx.prog.fns.items()):
+        if not k.startswith("may::io::thread::wait_proxy_co"): continue
+        parks = an.sites(g, Call(r"std::thread::park", transitive=False), "must")
+        if not parks: continue
+        SW = Call(r"std::sync::atomic::Atomic\w*::(swap|load|compare_exchange)", transitive=False)
+        sws = an.sites(g, SW, "must")
+        ctx.fns_touched.add(k)
+        ctx.guarded(k, Ev("ret"), call_true(r"std::sync::atomic::Atomic\w*::(swap|load)"), "thread-io/leaves-only-when-done", "the thread leaves the wait only after it saw the proxy's done flag set",
+                    rule=rule, pred_label="edge `done.swap(false)` is true")
+        okc = any(callee_name(g.node(q)).endswith("swap") and const_int(g, g.node(q)["args"][1]) == 0 for q in sws) if sws else False
+        ctx.ob(rule, k, "thread-io/done-flag-consumed", okc, "the done flag is consumed (swap(false)) for the next request" if okc else
+               "the wait does not reset the done flag with swap(false): the next request returns at once, before the proxy served it", g.where(sorted(sws)[0]) if sws else g.where())
+    # the proxy: flag before unpark
+    done_store = None
+    for k, g in sorted(ctx.prog.fns.items()):
+        if not k.startswith("may::io::thread::") or "{closure" not in k: continue
+        ups = an.sites(g, Call(r"std::thread::Thread::unpark", transitive=False), "must")
+        if not ups: continue
+        done_store = k
+        ctx.fns_touched.add(k)
+        ST = Call(r"std::sync::atomic::Atomic\w*::store", transitive=False)
+        ctx.order(k, ST, Call(r"std::thread::Thread::unpark", transitive=False), "thread-io/proxy-sets-done-then-unparks", "the proxy sets the done flag before it unparks the thread", rule="R-ORDER")
+        okv = any(const_int(g, g.node(q)["args"][1]) == 1 for q in an.sites(g, ST, "must"))
+        ctx.ob("R-ORDER", k, "thread-io/proxy-stores-true", okv, "the proxy stores `true`" if okv else "the proxy does not store `true` into the done flag: the thread never leaves its wait", g.where())
+    if done_store is None:
+        ctx.missing("R-ORDER", "may::io::thread", "thread-io/proxy-sets-done-then-unparks", "the proxy coroutine's unpark of the master thread was not found")
